@@ -157,6 +157,8 @@ pub enum Op1 {
   Flat(FlatKind, Vec<InnerSpec>),
   // ---- scheduler-using
   Delay(u64),
+  /// delay(n microseconds): shorter than a virtual tick, visible in the timer requests
+  DelayMicros(u64),
   /// delay_at(now + off ticks)
   DelayAt(i64),
   DelaySubscription(u64),
@@ -379,6 +381,7 @@ impl Op1 {
     matches!(
       self,
       Op1::Delay(_)
+        | Op1::DelayMicros(_)
         | Op1::DelayAt(_)
         | Op1::DelaySubscriptionAt(_)
         | Op1::DelaySubscription(_)
@@ -460,6 +463,7 @@ impl Op1 {
         FlatKind::ConcatMap => "concat_map",
       },
       Op1::Delay(_) => "delay",
+      Op1::DelayMicros(_) => "delay",
       Op1::DelayAt(_) => "delay_at",
       Op1::DelaySubscriptionAt(_) => "delay_subscription_at",
       Op1::DelaySubscription(_) => "delay_subscription",
@@ -1065,6 +1069,10 @@ macro_rules! build_fns {
             Op1::Delay(d) => {
               let $cxs = cx;
               s.$delay(ticks(*d), $sched).box_it()
+            }
+            Op1::DelayMicros(n) => {
+              let $cxs = cx;
+              s.$delay(std::time::Duration::from_micros(*n), $sched).box_it()
             }
             Op1::DelaySubscription(d) => {
               let $cxs = cx;
